@@ -21,9 +21,23 @@ COMPONENTS = COMPONENTS_TRANSPORT
 PLAN = plan(60, 900, ["handshake", "handshake", "migration", "fault_free", "zero_rtt"])
 
 SIZES = (1200, 1200, 1252, 1350, 1472, 1280, 1400)
+def op_close(sim, ep, target, size, fin):
+    """the application gives up, possibly while the handshake is still in progress: the closing packets are
+    datagrams like any other for the purposes of this property"""
+    sim.k.trace("op", ep.name, "close")
+    sim.op_log.append((round(sim.k.now, 6), ep.name, "close", 0, 0, 0))
+    ep.api("close", (0, 0x100, 0xA)[target % 3], None if size % 2 else 0x1C, ("", "bye", "x" * 300)[size % 3])
+    ep._closing = True
+    ep.pump()
+
+
+OPS_CLOSE = {"write": 10, "fin": 3, "reset": 1.5, "stop": 1.0, "ping": 1.5, "key_update": 1.0, "change_cid": 1.0,
+             "close": 1.5}
+
 PROFILES = {
     "handshake": {"faults": ("drop", "dup", "delay", "spoof", "timer-late", "clock"), "datagram_sizes": SIZES,
-                  "t_adv_max": 3.0, "big_cert_p": 0.3, "blackout_on_accept_p": 0.2},
+                  "t_adv_max": 3.0, "big_cert_p": 0.3, "blackout_on_accept_p": 0.2, "op_weights": OPS_CLOSE,
+                  "custom_ops": {"close": op_close}},
     "migration": {"faults": ("drop", "dup", "delay", "spoof", "rebind", "blackout", "timer-late"),
                   "datagram_sizes": SIZES, "big_cert_p": 0.3, "blackout_on_accept_p": 0.2},
     "fault_free": {"fault_free": True, "datagram_sizes": SIZES, "big_cert_p": 0.3},
